@@ -135,8 +135,12 @@ func (mem *Mempool) eventGetMempool(msg *queue.Message) {
 	} else {
 		isAll = msg.GetData().(*types.ReqGetMempool).GetIsAll()
 	}
+	// filterTxList 遍历cache并读取header, 需要持有锁(与getTxList一致), 回复消息前释放
+	mem.proxyMtx.Lock()
+	txs := mem.filterTxList(0, nil, isAll)
+	mem.proxyMtx.Unlock()
 	msg.Reply(mem.client.NewMessage("rpc", types.EventReplyTxList,
-		&types.ReplyTxList{Txs: mem.filterTxList(0, nil, isAll)}))
+		&types.ReplyTxList{Txs: txs}))
 }
 
 // EventDelTxList 获取Mempool中一定数量交易，并把这些交易从Mempool中删除
